@@ -3189,6 +3189,11 @@ T("C13", "twin-record-renamed", JDS,
 from .selftest import VARIANTS as _V, Variant as _Var
 for _lp, _lr, _bp, _br in (("C10", "R10.5", "C11", "R11.10"),
                            ("C10", "R10.5", "C12", "R12.10"),
+                           ("C04", "R4.1", "C05", "R5.26"),
+                           ("C04", "R4.4", "C05", "R5.27"),
+                           ("C07", "R7.18", "C05", "R5.28"),
+                           ("C11", "R11.8", "C09", "R9.10"),
+                           ("C11", "R11.4", "C15", "R15.10"),
                            ("C11", "R11.1", "C15", "R15.9")):
     _have = {v.vid for v in _V if v.prop == _bp}
     for _v in list(_V):
